@@ -83,7 +83,7 @@ class World(object):
     def op_new(self, op):
         np = _np()
         dense = np.array(op["dense"], dtype=np.int64).reshape(op["shape"])
-        ix = build_index(dense, op["common"])
+        ix = build_index(dense, op["common"], readonly=bool(op.get("readonly")))
         self.push(ix, dense, "new")
 
     def op_from_array(self, op):
@@ -715,7 +715,8 @@ def make_machine(mode, rec, tier):
             shape = (n,) + tuple(tail)
             dense = data.draw(dense_strategy(shape, pal), label="dense")
             common = data.draw(st.sampled_from(pal + [pal[0], 9]), label="common")
-            return {"dense": dense, "shape": list(shape), "common": common}
+            return {"dense": dense, "shape": list(shape), "common": common,
+                    "readonly": data.draw(st.integers(0, 3), label="readonly") == 0}
 
         @initialize(data=st.data())
         def init(self, data):
